@@ -555,3 +555,139 @@ def dot_obligations(timeout_ms=10000):
     for i_, ((kind, text), (st_, line)) in enumerate(sorted(seen.items())):
         add('%s#%d' % (kind, i_), kind, st_, text, line)
     return obs
+
+
+# ----------------------------------------------------------- op._islp()
+# True iff the objective and the functions of all inequalities and all
+# equalities are affine (precondition: equalities are affine anyway -- the
+# invariant constraint.__init__ establishes; constraint lists of any length: the loops are
+# executed for an arbitrary constraint; a constraint that is passed over is
+# affine, at exhaustion every constraint -- in particular a witness of
+# "some constraint is not affine" -- was passed over).
+class LpSeq:
+    abs_object = True
+
+    def __init__(self, name, n, aff, wit):
+        self.name, self.n, self.aff, self.wit = name, n, aff, wit
+
+    def abs_loop(self, ex, st, s, fid):
+        k = z3.Int(ex.fresh('k'))
+        b = st.copy()
+        b.pc += [k >= 0, k < self.n]
+        aff = self.aff
+
+        class F:
+            abs_object = True
+
+            def abs_method(s_, ex_, st_, name, args, kwargs, n):
+                if name == '_isaffine':
+                    return B(aff(k))
+                raise Unsupported('method %s' % name)
+
+            def abs_getattr(s_, ex_, st_, attr, n):
+                return core.NOTFOUND
+
+        class Cn:
+            abs_object = True
+
+            def abs_getattr(s_, ex_, st_, attr, n):
+                if attr == '_f':
+                    return F()
+                return core.NOTFOUND
+        ex.assign(b, fid, s.target, Cn(), s)
+        outs = []
+        for o in ex.exec_block(s.body, b, fid):
+            if o.kind in ('fall', 'continue'):
+                ex.oblige(o.st, 'islp-value', aff(k), s, '_islp passes '
+                          'over a constraint of %s only if its function is '
+                          'affine' % self.name, extra={'prop': 'C14'})
+                ex.orphans = getattr(ex, 'orphans', [])
+                ex.orphans.extend(o.st.obligs)
+            elif o.kind == 'break':
+                raise Unsupported('break in _islp')
+            else:
+                outs.append(o)
+        e = st.copy()
+        e.pc.append(z3.Implies(z3.And(self.wit >= 0, self.wit < self.n),
+                               aff(self.wit)))
+        outs.append(Outcome('fall', e))
+        return outs
+
+
+def islp_obligations(timeout_ms=10000):
+    tree, src = driver.load_module('modeling.py')
+    obs = []
+    ex = core.Executor(tree, 'cvxopt.modeling', L, {'unroll': 8})
+    oaff = z3.Bool('the objective is affine')
+    ni, ne = z3.Int('number of inequalities'), z3.Int('number of equalities')
+    ai = z3.Function('inequality is affine', z3.IntSort(), z3.BoolSort())
+    ae = z3.Function('equality is affine', z3.IntSort(), z3.BoolSort())
+    wi, we = z3.Int('witness inequality'), z3.Int('witness equality')
+    allaff = z3.Bool('every constraint function is affine')
+
+    class Obj_:
+        abs_object = True
+
+        def abs_method(s_, ex_, st_, name, args, kwargs, n):
+            if name == '_isaffine':
+                return B(oaff)
+            raise Unsupported('method %s' % name)
+
+        def abs_getattr(s_, ex_, st_, attr, n):
+            return core.NOTFOUND
+
+    class Me:
+        abs_object = True
+
+        def abs_getattr(s_, ex_, st_, attr, n):
+            return {'objective': Obj_(), '_inequalities': LpSeq(
+                '_inequalities', ni, ai, wi), '_equalities': LpSeq(
+                    '_equalities', ne, ae, we)}.get(attr, core.NOTFOUND)
+
+    def setup(ex_, st, fid, f_):
+        st.frames[fid]['self'] = Me()
+        # class invariant (constraint.__init__, contract above): the
+        # function of an equality constraint is affine
+        q_ = z3.Int('q_eq')
+        st.pc.append(z3.ForAll([q_], ae(q_)))
+        # allaff is false iff there is a witness in one of the lists
+        st.pc += [ni >= 0, ne >= 0, z3.Implies(z3.Not(allaff), z3.Or(
+            z3.And(wi >= 0, wi < ni, z3.Not(ai(wi))),
+            z3.And(we >= 0, we < ne, z3.Not(ae(we))))),
+            z3.Implies(allaff, z3.And(z3.Or(wi < 0, wi >= ni, ai(wi)),
+                                      z3.Or(we < 0, we >= ne, ae(we))))]
+        st.ghost['frame_check'] = False
+
+    def on_outcomes(ex_, outs):
+        class N:
+            lineno = 0
+            col_offset = 0
+        for o in outs:
+            if o.kind != 'return' or not isinstance(o.val, bool):
+                ex_.oblige(o.st, 'islp-value', z3.BoolVal(False), N(),
+                           '_islp returns True or False', extra={'prop':
+                                                                  'C14'})
+                continue
+            if o.val:
+                ex_.oblige(o.st, 'islp-value', z3.And(oaff, allaff), N(),
+                           '_islp returns True only if the objective and '
+                           'every constraint function is affine',
+                           extra={'prop': 'C14'})
+            else:
+                # False is returned from a test that failed on this path
+                ex_.oblige(o.st, 'islp-value', z3.Not(z3.And(
+                    oaff, z3.ForAll([z3.Int('q')], z3.And(
+                        z3.Implies(z3.And(z3.Int('q') >= 0,
+                                          z3.Int('q') < ni),
+                                   ai(z3.Int('q'))),
+                        z3.Implies(z3.And(z3.Int('q') >= 0,
+                                          z3.Int('q') < ne),
+                                   ae(z3.Int('q'))))))), N(),
+                    '_islp returns False only if the objective or some '
+                    'constraint function is not affine',
+                    extra={'prop': 'C14'})
+        return {'paths': len(outs)}
+    rep = driver.verify('modeling.py', 'op._islp', L, setup, on_outcomes,
+                        config={'unroll': 8}, scenario='any')
+    return rep
+
